@@ -2,6 +2,9 @@
 #![allow(clippy::too_many_arguments, clippy::type_complexity, clippy::collapsible_if, clippy::collapsible_else_if)]
 pub mod c14perm;
 pub mod c18;
+pub mod c19;
+pub mod c20;
+pub mod genmodel;
 pub mod hist;
 pub mod histprops;
 pub mod histprops2;
@@ -11,6 +14,7 @@ pub mod monitors;
 pub mod panicmon;
 pub mod report;
 pub mod rng;
+pub mod rx;
 pub mod specwalk;
 pub mod srcindex;
 pub mod values;
